@@ -65,6 +65,7 @@ type c19Case struct {
 	maxLife, stale      int64
 	progs               [][]string // ops: g<k> r u d c s
 	sched               []string   // "<task>[:pick]" | "t<d>" | "b<c>"
+	script              []string   // adaptive directives (generation only): the above, or "U<task>:<label prefix>"
 	style               string
 }
 
@@ -319,6 +320,32 @@ func c19Run1(cs *c19Case, out *vh.Out) {
 		}
 		exec(e)
 	}
+	// adaptive script (generation only; what was actually executed is recorded as a plain schedule)
+	for _, d := range cs.script {
+		if stuck {
+			break
+		}
+		if d[0] != 'U' {
+			exec(d)
+			continue
+		}
+		parts := strings.SplitN(d[1:], ":", 2)
+		i, _ := strconv.Atoi(parts[0])
+		for n := 0; n < 80 && !stuck; n++ {
+			if i >= len(r.s.Tasks) || r.s.Tasks[i].Done {
+				break
+			}
+			before := r.label(r.s.Tasks[i])
+			exec(strconv.Itoa(i))
+			after := r.label(r.s.Tasks[i])
+			if strings.HasPrefix(after, parts[1]) || r.s.Tasks[i].Done {
+				break
+			}
+			if after == before && strings.HasSuffix(after, ".lock") {
+				break
+			}
+		}
+	}
 	// tail: run everybody to completion, round robin
 	for round := 0; !stuck && round < 4000; round++ {
 		progress, alive := false, false
@@ -566,7 +593,106 @@ func c19Session(r *vh.Rng, nkeys int) []string {
 	return p
 }
 
+// c19GenScenario: a Get is parked in the middle (after it released the lock, or while it tests a connection)
+// while the bucket it refers to expires and is dropped by another Get, swept by CleanUp, or collected by a
+// Return on a full map; then the pool may be shut down; then the parked Get resumes.
+func c19GenScenario(r *vh.Rng) *c19Case {
+	cs := &c19Case{style: "scenario"}
+	L := 1 + r.Intn(3)
+	cs.maxLife = int64(L)
+	cs.maxConns = 1 + r.Intn(3)
+	cs.maxKeys = 1 + r.Intn(3)
+	kind := r.Intn(3)
+	switch kind {
+	case 0: // another Get finds the bucket expired
+		cs.stale = int64(L + 2 + r.Intn(4))
+		cs.style = "scenario get-drop"
+	case 1: // CleanUp sweeps it
+		cs.stale = int64(r.Intn(L + 2))
+		cs.style = "scenario cleanup"
+	default: // Return on a full map collects it
+		cs.stale = int64(r.Intn(L + 2))
+		cs.maxKeys = 1
+		cs.style = "scenario return-gc"
+	}
+	n := 1 + r.Intn(cs.maxConns)
+	var p0 []string
+	for i := 0; i < n; i++ {
+		p0 = append(p0, "g0")
+	}
+	for i := 0; i < n; i++ {
+		p0 = append(p0, "r")
+	}
+	for i := 0; i < n; i++ {
+		p0 = append(p0, "g0", "u", "r")
+	}
+	victim := []string{"g0"}
+	if r.Chance(60) {
+		victim = append(victim, "u", "r")
+	}
+	var racer []string
+	switch kind {
+	case 0:
+		racer = []string{"g0"}
+		if r.Chance(50) {
+			racer = append(racer, "r")
+		}
+	case 1:
+		racer = []string{"c"}
+	default:
+		racer = []string{"g1", "r"}
+	}
+	cs.progs = [][]string{p0, victim, racer}
+	closer := -1
+	if r.Chance(70) {
+		closer = len(cs.progs)
+		cs.progs = append(cs.progs, []string{"s"})
+	}
+	if r.Chance(30) {
+		cs.progs = append(cs.progs, c19Session(r, 2))
+	}
+	noise := func() {
+		if r.Chance(15) {
+			k := 1 + r.Intn(3)
+			for i := 0; i < k; i++ {
+				cs.script = append(cs.script, strconv.Itoa(r.Intn(len(cs.progs)+2)))
+			}
+		}
+	}
+	for i := 0; i < 2*n; i++ {
+		cs.script = append(cs.script, "U0:idle")
+	}
+	cs.script = append(cs.script, "t"+strconv.Itoa(L))
+	for i := 0; i < 3*n; i++ {
+		cs.script = append(cs.script, "U0:idle")
+	}
+	if kind == 2 {
+		cs.script = append(cs.script, "U2:idle")
+	}
+	noise()
+	cs.script = append(cs.script, "U1:"+r.Pick("g.sel", "g.sel", "g.sel", "us", "g.lock"))
+	noise()
+	cs.script = append(cs.script, "t"+strconv.Itoa(1+r.Intn(2)))
+	noise()
+	stops := map[int][]string{
+		0: {"idle", "idle", "g.drain", "g.close", "g.drain", "cc"},
+		1: {"idle", "idle", "c.drain", "c.close", "c.iter"},
+		2: {"idle", "idle", "r.drain", "r.close", "r.sel", "cc"},
+	}[kind]
+	cs.script = append(cs.script, "U2:"+stops[r.Intn(len(stops))])
+	noise()
+	if closer >= 0 {
+		cs.script = append(cs.script, "U"+strconv.Itoa(closer)+":"+r.Pick("idle", "idle", "idle", "s.lock", "s.drain"))
+	}
+	noise()
+	cs.script = append(cs.script, "U1:idle")
+	return cs
+}
+
 func c19Gen(r *vh.Rng) *c19Case {
+	if r.Chance(30) {
+		return c19GenScenario(r)
+	}
 	cs := &c19Case{}
 	cs.maxKeys = 1 + r.Intn(3)
 	cs.maxConns = []int{0, 1, 1, 2, 2, 3}[r.Intn(6)]
